@@ -274,35 +274,46 @@ def run(calls, first, preempt_at, max_steps=400):
             results[t] = ("ret", s.value)
     _CUR[0] = None
     total = 0
-    while True:
-        en = enabled_threads()
-        if not en:
-            for t in range(n):
-                if results[t] is None:
-                    results[t] = ("deadlock",)
-            break
-        if cur not in en:
-            cur = next_enabled(en, cur)
-        elif len(en) > 1:
-            hit = False
-            for p in preempt_at:
-                if p == total:
-                    hit = True
-            if hit:
-                cur = next_enabled([t for t in en if t != cur], cur)
-        if total >= max_steps:
-            raise AssertionError("step bound exceeded")
-        _CUR[0] = cur
-        try:
-            order.append((cur, pending[cur][1]))
-            pending[cur] = next(gens[cur])
-        except StopIteration as s:
-            results[cur] = ("ret", s.value)
-        except Exception as e:  # noqa  (CrossHair's control-flow exceptions are BaseException)
-            results[cur] = ("exc", e)
-        finally:
-            _CUR[0] = None
-        total += 1
+    try:
+        while True:
+            en = enabled_threads()
+            if not en:
+                for t in range(n):
+                    if results[t] is None:
+                        results[t] = ("deadlock",)
+                break
+            if cur not in en:
+                cur = next_enabled(en, cur)
+            elif len(en) > 1:
+                hit = False
+                for p in preempt_at:
+                    if p == total:
+                        hit = True
+                if hit:
+                    cur = next_enabled([t for t in en if t != cur], cur)
+            if total >= max_steps:
+                raise AssertionError("step bound exceeded")
+            _CUR[0] = cur
+            try:
+                order.append((cur, pending[cur][1]))
+                pending[cur] = next(gens[cur])
+            except StopIteration as s:
+                results[cur] = ("ret", s.value)
+            except Exception as e:  # noqa  (CrossHair's control-flow exceptions are BaseException)
+                results[cur] = ("exc", e)
+            finally:
+                _CUR[0] = None
+            total += 1
+    finally:
+        # suspended generators are closed here (also when the engine abandons the path), not whenever the collector gets to them:
+        # a late GeneratorExit would run traced code of an old path inside a new one
+        _CUR[0] = None
+        for g in gens:
+            if g is not None:
+                try:
+                    g.close()
+                except Exception:  # noqa
+                    pass
     return results, order
 
 
